@@ -539,19 +539,91 @@ def classify(case, impl, failure):
     """nonfinite-float: the saved state holds +-inf (or a NaN) in a float parameter - exactly the values
     good_scalar1 / good_elem (Save/PrintLines.v, premise good_line of C12_roundtrip_tree_real_lines_partial)
     exclude with f32_finite; the file then contains text the scanner rejects and loading fails as a whole.
+    Demanded exactly (nonfinite_signature): lines= ends in the one UNPARSABLE entry, ret < 0, that port is
+    live and differs from its default, everything else about the saved text is as the state demands.
     option-outside-range: an option parameter holds a number outside its declared min / max (stored by a
     symbol message: rCOptionCb's symbol branch does not clamp; an unknown symbol gives INT_MIN) - a value
     that is not a fixed point of the port's callback, the clause `stable` of full_conditions; the round-trip
-    failure must name that port."""
+    failure must name that port and the loaded value must be the saved number clamped (clamp_signature)."""
     if case.split(" ")[0] != "save":
         return None
     nf, out = state_classes(case, impl)
     kind = failure.split(":")[0]
-    if nf and kind in ("minimal", "count", "roundtrip"):
-        return "nonfinite-float"
-    if out and kind == "roundtrip" and any(failure.startswith("roundtrip: %s is " % p) for p in out):
-        return "option-outside-range"
+    try:
+        if nf and kind == "minimal" and nonfinite_signature(case, impl, nf):
+            return "nonfinite-float"
+        if out and kind == "roundtrip" and clamp_signature(case, impl, failure, out):
+            return "option-outside-range"
+    except Exception:
+        return None
     return None
+
+def _dumps(case, impl):
+    f = case.split(" ")
+    kv = sc.kv_fields(impl)
+    ref = sc.ref_from_flat(sc.parse_flat(f[2]))
+    sa, _ = sc.state_from_dump(ref, kv["A"])
+    sb, _ = sc.state_from_dump(ref, kv["B"])
+    return kv, ref, sa, sb
+
+def nonfinite_signature(case, impl, nf):
+    """what the finding looks like and nothing else: the scan of the saved text stops at ONE unparsable
+    line (last entry of lines=), load_from_file gives a negative result, the lines scanned before it are
+    lines the state demands (no address twice, each with the parameter's values), the text of the body has
+    exactly one line per address the state demands, and a parameter that holds the non-finite float is
+    among them (live and different from its default) with inf / nan in its text."""
+    kv, ref, sa, _ = _dumps(case, impl)
+    lines = kv.get("lines", "-").split("|")
+    if lines[-1] != "UNPARSABLE" or "UNPARSABLE" in lines[:-1]:
+        return False
+    if int(kv["ret"]) >= 0:
+        return False
+    want = sc.expected_lines_of_state(ref, sa)
+    got = {}
+    for l in lines[:-1]:
+        parts = l.split("~")
+        key = parts[0] + ("~[" if len(parts) > 1 and parts[1] == "[" else "")
+        vals = parts[2:] if key.endswith("~[") else parts[1:]
+        if key in got or key not in want:
+            return False
+        least, allv = want[key]
+        if len(vals) < least or vals != allv[:len(vals)]:
+            return False
+        got[key] = vals
+    body = [bytes.fromhex(h) for h in kv.get("body", "-").split("|") if h and h != "-"]
+    addrs = [b.split()[0].decode("latin-1") for b in body]      # a long address is followed by a line break
+    wanted = [k[:-2] if k.endswith("~[") else k for k in want]
+    if sorted(addrs) != sorted(wanted):
+        return False
+    scanned = {l.split("~")[0] for l in lines[:-1]}
+    for b, a in zip(body, addrs):
+        if a in nf and a not in scanned and (b"inf" in b or b"nan" in b):
+            return True
+    return False
+
+def clamp_signature(case, impl, failure, out):
+    """the round-trip failure names a port of the class and the loaded instance holds exactly what the
+    finding says: the option's number clamped to its declared range (for a port whose preset selector is
+    such an option: the selector clamped, the port itself not saved and left as a fresh instance has it)"""
+    kv, ref, sa, sb = _dumps(case, impl)
+    def clamp(p, x):
+        if p.min is not None and x < p.min: return p.min
+        if p.max is not None and x > p.max: return p.max
+        return x
+    def clamped(i):
+        p = ref.flat[i].leaf
+        return sa[i] is not None and sb[i] is not None and list(sb[i]) == [clamp(p, x) for x in sa[i]]
+    for i, fp in enumerate(ref.flat):
+        if fp.path not in out or not failure.startswith("roundtrip: %s is " % fp.path):
+            continue
+        p = fp.leaf
+        own = p.elem_kind() == "o" and any((p.min is not None and x < p.min) or (p.max is not None and x > p.max) for x in sa[i])
+        if own:
+            return clamped(i)
+        if fp.sel is not None and clamped(fp.sel):
+            saved = {l.split("~")[0] for l in kv.get("lines", "-").split("|")}
+            return fp.path not in saved and sb[i] is not None and list(sb[i]) == list(ref.initial(i))
+    return False
 
 def minimise(case, impl, failure, run):
     f = case.split(" ")
